@@ -21,6 +21,7 @@ func propC03(r *Report, tier string) {
 	ruleMarkBeforeCreate(r, "K5-mark-before-create")
 	ruleUnmarkAfterCommit(r, "K5-unmark-after-commit")
 	ruleEquivSnapshotOwnEpoch(r, "K6-persisted-snapshot-own-epoch")
+	ruleDeletedBitsWrittenForEverySegment(r, "K5-deleted-bits-for-every-segment")
 	ruleLoopScratchBufferReset(r, "K5-loop-scratch-buffer-reset", "index/scorch", "index/upsidedown", "util")
 	ruleSegmentIDsNotReissued(r, "K5dep-segment-ids-from-disk")
 	ruleErrorsLookedAt(r, "Kerr-errors-looked-at", func(rel string) bool { return rel == "index/scorch" }, errAllowScorch)
